@@ -344,6 +344,7 @@ class Prop:
                 c2 = c
             path = write_replay(self.id, {"property": self.id, "kind": "failing-input", "why": why, "case": c2,
                                           "impl_behaviour": self.run_impl(c2), "original_case": c,
+                                          "original_behaviour": ib,
                                           "n_failing_cases": len(reported)})
             print(f"VIOLATION property={self.id} replay={path}")
             violations = len(reported)
